@@ -12,6 +12,7 @@ white-listed part of package `strings`); both are exercised on every run by exec
 generated definitions in the driver against the real functions.
 -/
 import CM.Generated.Fn
+import CM.Props.C17
 import CM.Model.RateLimit
 namespace CM.Tie.FnC17
 open CM.Go
@@ -151,5 +152,34 @@ theorem C17_tie_fn_SetMaxEvents (ring : List T) (c W n : Nat) :
 
 
 end RL
+
+/-! ### the property theorem, about the printed definition -/
+
+section RLprops
+open CM.RateLimit CM.Gen.Fn
+
+/-- **C17_resize_keeps_newest, of the code as printed**: an effective `SetMaxEvents(n)` (no panic, `n` differs
+from the current limit) on a ring whose cursor is in range does not panic and installs — with cursor 0, the window
+untouched — the newest `n` timestamps in their order when shrinking, all of them followed by free slots when growing. -/
+theorem C17_fn_SetMaxEvents_keeps_newest (ring : List T) (c W n : Nat) (hc : CurOK ring c)
+    (hp : ¬ (n = 0 ∧ W ≠ 0)) (hd : n ≠ ring.length) :
+    ∃ r', RingBufferRateLimiter_SetMaxEvents (toRL ring c W) (Int.ofNat n) = some r' ∧
+      r'.cursor = 0 ∧ r'.window = Int.ofNat W ∧ r'.ring.length = n ∧
+      r'.ring = (if n ≤ ring.length then (view ring c).drop (ring.length - n)
+                 else view ring c ++ List.replicate (n - ring.length) none) := by
+  refine ⟨toRL (resize ring c n) 0 W, ?_, rfl, rfl, ?_, ?_⟩
+  · rw [C17_tie_fn_SetMaxEvents]; simp [hp, hd]
+  · exact (C17_resize_keeps_newest hc n).2
+  · exact (C17_resize_keeps_newest hc n).1
+
+/-- … and it panics exactly when asked for no events with a non-zero window -/
+theorem C17_fn_SetMaxEvents_panics_iff (ring : List T) (c W n : Nat) :
+    RingBufferRateLimiter_SetMaxEvents (toRL ring c W) (Int.ofNat n) = none ↔ (n = 0 ∧ W ≠ 0) := by
+  rw [C17_tie_fn_SetMaxEvents]
+  by_cases hp : n = 0 ∧ W ≠ 0
+  · simp [hp]
+  · by_cases hd : n = ring.length <;> simp [hp, hd]
+
+end RLprops
 
 end CM.Tie.FnC17
